@@ -264,12 +264,25 @@ func compositeOrder(info *types.Info, cl *ast.CompositeLit) ast.Expr {
 	if !ok || namedTypeName(tv.Type) != modPath+"/pkg/obiiter.BioSequenceBatch" {
 		return nil
 	}
+	// the batch number is the integer field of the batch (whatever it is called, wherever it stands)
+	intField := -1
+	if st, ok := tv.Type.Underlying().(*types.Struct); ok {
+		for k := 0; k < st.NumFields(); k++ {
+			if b, ok := st.Field(k).Type().Underlying().(*types.Basic); ok && b.Info()&types.IsInteger != 0 {
+				intField = k
+			}
+		}
+	}
 	for i, el := range cl.Elts {
 		if kv, ok := el.(*ast.KeyValueExpr); ok {
-			if id, ok := kv.Key.(*ast.Ident); ok && id.Name == "order" {
-				return kv.Value
+			if id, ok := kv.Key.(*ast.Ident); ok {
+				if fv, ok := info.ObjectOf(id).(*types.Var); ok && fv.IsField() {
+					if b, ok := fv.Type().Underlying().(*types.Basic); ok && b.Info()&types.IsInteger != 0 {
+						return kv.Value
+					}
+				}
 			}
-		} else if i == 2 {
+		} else if i == intField {
 			return el
 		}
 	}
